@@ -299,7 +299,7 @@ func TestReplay(t *testing.T) {
 	reproduced := false
 	var got []Violation
 	for _, v := range res.Violations {
-		if v.Prop == rf.Property {
+		if v.Prop == rf.Property || os.Getenv("HSIM_ANY") != "" { // HSIM_ANY: debugging aid, every property's rules
 			got = append(got, v)
 			if v.Rule == rf.Rule {
 				reproduced = true
